@@ -60,14 +60,62 @@ theorem useArrays_spec (s : Stored) (cl : Bool) :
     · simp [h] at h1 h2 ⊢
       exact ⟨by rw [h1, h2], h2⟩
 
-theorem amplitudesTrueUse_defined (s : Stored) (cl : Bool) (f : Rat) :
+/-- the per-cluster case of `useArrays_spec` with the number of ids spelled out -/
+theorem useArrays_clusters_spec (s : Stored) :
+    (useArrays s true).1.length = (if s.sc ≠ s.st then s.sc.foldl max 0 + 1 else s.templates.length) ∧
+    (useArrays s true).2.2 = (if s.sc ≠ s.st then s.sc.foldl max 0 + 1 else s.templates.length) ∧
+    (useArrays s true).2.1 = s.sc ∧
+    idCount s true = (if s.sc ≠ s.st then s.sc.foldl max 0 + 1 else s.templates.length) := by
+  obtain ⟨h1, h2, h3⟩ := useArrays_spec s true
+  have hid : idCount s true = (if s.sc ≠ s.st then s.sc.foldl max 0 + 1 else s.templates.length) := by
+    simp [idCount]
+  exact ⟨by rw [h1, hid], by rw [h2, hid], by rw [h3]; rfl, hid⟩
+
+/-- on a dataset that loads (every spike's template exists) every id of the selected assignment is below the number
+of ids of its space -/
+theorem assignment_lt_idCount (s : Stored) (cl : Bool) (hst : ∀ t ∈ s.st, t < s.templates.length) :
+    ∀ t ∈ assignment s cl, t < idCount s cl := by
+  intro t ht
+  unfold assignment at ht
+  unfold idCount
+  cases cl
+  · simpa using hst t (by simpa using ht)
+  · by_cases h : s.sc = s.st
+    · have ht' : t ∈ s.st := by rw [← h]; simpa using ht
+      simpa [h] using hst t ht'
+    · have ht' : t ∈ s.sc := by simpa using ht
+      have := C08.Lemmas.mem_sc_le s.sc t ht'
+      simp [h]; omega
+
+theorem amplitudesTrueUse_defined (s : Stored) (cl : Bool) (f : Rat)
+    (hin : ∀ t ∈ assignment s cl, t < idCount s cl) :
     amplitudesTrueUse s cl f = some (amplitudesTrue (useData s cl) f) := by
-  obtain ⟨h1, h2, _⟩ := useArrays_spec s cl
+  obtain ⟨h1, h2, h3⟩ := useArrays_spec s cl
   unfold amplitudesTrueUse
-  simp [h1, h2]
+  have hall : (useArrays s cl).2.1.all (· < (useArrays s cl).2.2) = true := by
+    rw [List.all_eq_true, h2, h3]
+    intro t ht
+    exact decide_eq_true (hin t ht)
+  simp only [h1, h2] at hall ⊢
+  rw [if_pos ⟨trivial, hall⟩]
+
+/-- a spike id beyond the id space: no result (the real code raises IndexError) -/
+theorem amplitudesTrueUse_none (s : Stored) (cl : Bool) (f : Rat)
+    (hout : ∃ t ∈ assignment s cl, idCount s cl ≤ t) : amplitudesTrueUse s cl f = none := by
+  obtain ⟨_, h2, h3⟩ := useArrays_spec s cl
+  obtain ⟨t, ht, hge⟩ := hout
+  unfold amplitudesTrueUse
+  have hall : ¬ ((useArrays s cl).2.1.all (· < (useArrays s cl).2.2) = true) := by
+    rw [List.all_eq_true, h2, h3]
+    intro h
+    have := of_decide_eq_true (h t ht)
+    omega
+  simp only []
+  rw [if_neg (fun h => hall h.2)]
 
 theorem ampsUse_spec (s : Stored) (cl : Bool) (f : Rat)
-    (ha : s.amplitudes.length = (assignment s cl).length) (t : Nat) (ht : t < idCount s cl) :
+    (ha : s.amplitudes.length = (assignment s cl).length) (hin : ∀ t ∈ assignment s cl, t < idCount s cl)
+    (t : Nat) (ht : t < idCount s cl) :
     ∃ sa resc av, amplitudesTrueUse s cl f = some (sa, resc, av) ∧
       sa.length = (assignment s cl).length ∧ resc.length = idCount s cl ∧ av.length = idCount s cl ∧
       av.getD t none = meanOver (assignment s cl) sa t ∧
@@ -80,7 +128,7 @@ theorem ampsUse_spec (s : Stored) (cl : Bool) (f : Rat)
   have ht' : t < (useData s cl).wfsW.length := by rw [hw]; exact ht
   obtain ⟨e1, e2⟩ := ampsVUnit_eq_mean (useData s cl) f ha' t ht'
   refine ⟨spikeAmpsUnit (useData s cl) f, rescaledUnit (useData s cl) f, ampsVUnit (useData s cl) f,
-    amplitudesTrueUse_defined s cl f, ?_, ?_, ?_, ?_, ?_, ?_⟩
+    amplitudesTrueUse_defined s cl f hin, ?_, ?_, ?_, ?_, ?_, ?_⟩
   · rw [← hs]; simp [spikeAmpsUnit, spikeAmps_length _ ha']
   · rw [rescaledUnit_length, hw]
   · rw [e2, hw]
@@ -133,8 +181,14 @@ theorem useArrays_rect (s : Stored) (cl : Bool) (hst : ∀ t ∈ s.st, t < s.tem
   · simpa using hW
   · simpa using loadClusters_rect s.templates s.chans s.st s.sc s.ns s.nc hst hW
 
+theorem duration_times_rate (x : Rat) (n : Int) (rate : Rat) (hr : 0 < rate) (h : x = (n : Rat) * 1000 / rate) :
+    x * rate = (n : Rat) * 1000 := by
+  rw [h]
+  field_simp
+
 /-- peak channels and durations of the selected id space: the direct formulas on its waveforms, one per id -/
-theorem summariesUse_spec (s : Stored) (cl : Bool) (rate : Rat) (hst : ∀ t ∈ s.st, t < s.templates.length)
+theorem summariesUse_spec (s : Stored) (cl : Bool) (rate : Rat) (hr : 0 < rate)
+    (hst : ∀ t ∈ s.st, t < s.templates.length)
     (hW : ∀ M ∈ s.templates, Rect M s.ns s.nc) (hns : 0 < s.ns) (hnc : 0 < s.nc) (t : Nat)
     (ht : t < idCount s cl) :
     (channelsUse s cl).length = idCount s cl ∧ (durationsUse s cl rate).length = idCount s cl ∧
@@ -142,7 +196,8 @@ theorem summariesUse_spec (s : Stored) (cl : Bool) (rate : Rat) (hst : ∀ t ∈
       IsFirstMax (chan ((useArrays s cl).1.getD t []) p) iM ∧
       IsFirstMin (chan ((useArrays s cl).1.getD t []) p) im ∧
       (channelsUse s cl).getD t 0 = p ∧
-      (durationsUse s cl rate).getD t 0 = (((iM : Int) - (im : Int) : Int) : Rat) * 1000 / rate := by
+      (durationsUse s cl rate).getD t 0 = (((iM : Int) - (im : Int) : Int) : Rat) * 1000 / rate ∧
+      (durationsUse s cl rate).getD t 0 * rate = (((iM : Int) - (im : Int) : Int) : Rat) * 1000 := by
   have hlen := (useArrays_spec s cl).1
   have hrect := useArrays_rect s cl hst hW
   have ht' : t < (useArrays s cl).1.length := by rw [hlen]; exact ht
@@ -153,9 +208,10 @@ theorem summariesUse_spec (s : Stored) (cl : Bool) (rate : Rat) (hst : ∀ t ∈
   obtain ⟨p, iM, im, hp, hM, hm⟩ := duration_objects_exist _ s.ns s.nc hWt hns hnc
   obtain ⟨c1, c2⟩ := peakChannels_spec (useArrays s cl).1 t s.ns s.nc ht' hWt hns hnc
   refine ⟨by rw [channelsUse, c2, hlen], by rw [durationsUse, waveformDurations_length, hlen],
-    p, iM, im, hp, hM, hm, ?_, ?_⟩
+    p, iM, im, hp, hM, hm, ?_, ?_, ?_⟩
   · exact isPeakChannel_unique _ s.nc _ _ c1 hp
   · exact duration_ms_spec _ rate s.ns s.nc hns hnc hrect t ht' p iM im hp hM hm
+  · exact duration_times_rate _ _ rate hr (duration_ms_spec _ rate s.ns s.nc hns hnc hrect t ht' p iM im hp hM hm)
 
 /-! ### `templates_probes` -/
 
@@ -199,11 +255,6 @@ theorem amplitudesVec_spec (ids : List Nat) (amps : List Rat) (h : amps.length =
   · simp [List.getD_eq_getElem?_getD, hk]
 
 /-! ### duration × rate -/
-
-theorem duration_times_rate (x : Rat) (n : Int) (rate : Rat) (hr : 0 < rate) (h : x = (n : Rat) * 1000 / rate) :
-    x * rate = (n : Rat) * 1000 := by
-  rw [h]
-  field_simp
 
 /-! ### unwhitening undoes whitening -/
 
